@@ -5,6 +5,7 @@ Model: `buildDA` (tie K-build: `num_states` equal on every case) + the evaluated
 `num_elements()` / `heap_bytes()` against the dumped tables in the driver.
 -/
 import Daac.Proofs.BuildCor
+import Daac.Proofs.Stats2
 namespace Daac.Props.C15
 open Daac
 variable {V : Type}
@@ -32,5 +33,29 @@ theorem nodes_are_prefixes (kind : Nat) (P : List (LPat V)) (h : keysOk P) (t : 
     t.size = (t.paths []).length ∧ (t.paths []).Nodup ∧
       ∀ u, u ∈ t.paths [] ↔ (u = [] ∨ ∃ k ∈ retainedKeys (kind == 2) (P.map (·.key)), u ∈ nprefixes k) :=
   buildTrie_paths kind P h t ht
+
+
+/-! ### Rung 2 — the tables of every successfully built automaton (model of the builder) -/
+
+/-- Every one of the reported states is actually reachable from the root: there are exactly
+`numStates` distinct trie nodes, each reached by following the child lookups of the TABLES along
+its own path, at pairwise distinct in-range indices. All kinds, both variants, every
+`num_free_blocks`. -/
+theorem all_states_reachable (variant : Variant) (nfb kind : Nat) (P : List (LPat V)) (da : DA V)
+    (hb : buildDA variant ⟨kind, nfb⟩ P = .ok da) (hk : keysOk P)
+    (hlabels : variant = .bytewise → ∀ p ∈ P, ∀ c ∈ p.key, c < 256) :
+    ∃ (nodes : List (List Nat)) (idx : List Nat → Nat),
+      nodes.Nodup ∧ nodes.length = da.numStates ∧
+      (∀ u ∈ nodes, da.walk u = some (idx u) ∧ idx u < da.states.size) ∧
+      (∀ u ∈ nodes, ∀ w ∈ nodes, idx u = idx w → u = w) :=
+  states_reachable variant nfb kind P da hb hk hlabels
+
+/-- The reported element count is never smaller than the state count (so `heap_bytes`, which is
+`size_of::<State>() * num_elements + …`, is at least 12 resp. 16 bytes per state). -/
+theorem num_elements_ge (variant : Variant) (nfb kind : Nat) (P : List (LPat V)) (da : DA V)
+    (hb : buildDA variant ⟨kind, nfb⟩ P = .ok da) (hk : keysOk P)
+    (hlabels : variant = .bytewise → ∀ p ∈ P, ∀ c ∈ p.key, c < 256) :
+    da.numStates ≤ da.states.size :=
+  num_elements_ge_num_states variant nfb kind P da hb hk hlabels
 
 end Daac.Props.C15
